@@ -21,11 +21,12 @@ func (m *MerkleBlock) DecodeBinary(br *io.BinReader) {
 	m.Header = &block.Header{}
 	m.Header.DecodeBinary(br)
 
-	txCount := int(br.ReadVarUint())
-	if txCount > block.MaxTransactionsPerBlock {
+	count := br.ReadVarUint()
+	if count > block.MaxTransactionsPerBlock {
 		br.Err = block.ErrMaxContentsPerBlock
 		return
 	}
+	txCount := int(count)
 	m.TxCount = txCount
 	br.ReadArray(&m.Hashes, m.TxCount)
 	if txCount != len(m.Hashes) {
